@@ -13,6 +13,9 @@ def gen_values(rng, n, style=None):
     if style is None:
         r = rng.random()
         style = 'lattice' if r < 0.8 else ('ints' if r < 0.9 else 'floats')
+    if style == 'bigint':
+        # integer samples above 2**53 (epoch nanoseconds, 64-bit counters): exact as Python ints, lossy as floats
+        return [1700000000000000000 + rng.randint(-400, 400) for _ in range(n)]
     if style == 'lattice':
         return [LATTICE[rng.randrange(len(LATTICE))] for _ in range(n)]
     if style == 'ints':
@@ -20,7 +23,9 @@ def gen_values(rng, n, style=None):
     return [round(rng.uniform(-5, 5), 3) for _ in range(n)]
 
 
-def gen_trace(rng, vars_, n):
+def gen_trace(rng, vars_, n, p_bigint=0.0):
+    if p_bigint and rng.random() < p_bigint:
+        return dict((v, gen_values(rng, n, 'bigint')) for v in vars_)     # all sensors count in the same huge unit
     return dict((v, gen_values(rng, n)) for v in vars_)
 
 
